@@ -129,6 +129,13 @@ CHECKS = {
         "Trusted: schema_ref model for conformance, Python hashlib, the harness JSON tree codec. Parameter types avoid the features with open C12 findings.",
         "DESIGN.md §3 C18",
     ),
+    "C16": (
+        "exploration",
+        "runtime monitoring: the real PropertyTest::run / run_n_times observed next to an independent from_seed -> sample -> eval loop; executable model of the three expectations; counterexample re-evaluation, replay of recorded choices, shortlex bound; determinism histories (repeat, rebuilt test, threads, second process)",
+        "Generated property tests over an own fuzz library (constant, lenient-on-replay, data-dependent choice counts, list_of / list_while, such_that with forgotten redraws, crashing fuzzers; labels) x {none, fail, fail once} x seeds x max_successes are run by the repository's framework; verdict, iteration count, labels and counterexample presence must equal a 15-line model fed by an independent sampling loop and a Python ground truth of each predicate; every reported counterexample is re-applied, regenerated from its choice sequence and compared in choice-sequence order with the first deciding case; every outcome is recomputed in-process, on a rebuilt test, in N threads and in a second process and must be byte-identical.",
+        "Trusted: oracles/proptest/model.py and the Python predicates. Stated for Plutus V3; Seeded fuzzers answering None (the framework's stated precondition) are excluded. A watchdog timeout is inconclusive, never a violation.",
+        "DESIGN.md §3 C16",
+    ),
     "C19": (
         "exploration",
         "runtime monitoring: probe scripts inside recorded and synthetic transactions; five-way agreement on execution units, budget hand-over histories, missing-piece fault injection, permutation metamorphics, echoed script contexts against independently written ledger rules",
